@@ -23,6 +23,8 @@ PropsOK == OneDecision' /\ NothingForExit' /\ ViaExact' /\ Answered' /\ ViaNever
 Step(e) ==
   CASE e.a = "NewStream"   -> NewStream(e.s, e.kind, e.p, e.ans, e.mode)
     [] e.a = "Answer"      -> Answer(e.s)
+    [] e.a = "StreamFailed" -> StreamFailed(e.s)
+    [] e.a = "LateClosed"  -> LateClosed(e.s)
     [] e.a = "SetAttacher" -> SetAttacher(e.who)
     [] e.a = "ViaConnect"  -> ViaConnect(e.k, e.c, e.late)
     [] e.a = "ConfAck"     -> ConfAck
